@@ -259,10 +259,7 @@ func runC02(k *kernel.K) {
 			p.resBeh = []string{"pass", "mutate", "error", "hijack"}[w.Pick([]int{6, 2, 3, 2})]
 			p.parkReq, p.parkRes = w.Chance(1, 2), w.Chance(1, 2)
 			if isConnect {
-				if p.reqBeh == "skip" {
-					p.reqBeh = "pass"
-				}
-				p.unreachable = w.Chance(1, 4)
+				p.unreachable = w.Chance(1, 4) && p.reqBeh != "skip"
 				host := fmt.Sprintf("x%d.tunnel.test:443", id)
 				if p.unreachable {
 					host = fmt.Sprintf("x%d.nowhere.test:443", id)
@@ -314,7 +311,7 @@ func runC02(k *kernel.K) {
 	k.AddSource(func(add func(kernel.Action)) {
 		for ci, c := range clients {
 			ps := connPlans[ci]
-			if len(ps) != 1 || !ps[0].connect || pinged[ps[0].id] || !c.Alive() {
+			if len(ps) != 1 || !ps[0].connect || ps[0].reqBeh == "skip" || pinged[ps[0].id] || !c.Alive() {
 				continue
 			}
 			fin := c.P.Final()
@@ -334,7 +331,7 @@ func runC02(k *kernel.K) {
 				return false
 			}
 			ps := connPlans[ci]
-			if len(ps) == 1 && ps[0].connect && c.Alive() {
+			if len(ps) == 1 && ps[0].connect && ps[0].reqBeh != "skip" && c.Alive() {
 				fin := c.P.Final()
 				if len(fin) == 1 && fin[0].Status == 200 && !strings.Contains(string(c.P.Raw), "PONG") {
 					return false
@@ -527,6 +524,9 @@ func runC02(k *kernel.K) {
 				k.Probe("skip")
 				if len(originReqs[p.id]) > 0 {
 					k.Fail("C02.skip_no_upstream", nil, "%s: origin was contacted although the request modifier asked to skip the round trip", desc)
+				}
+				if p.connect && tunnelConns[p.id] != nil {
+					k.Fail("C02.skip_no_upstream", map[string]string{"mode": "connect"}, "%s: the CONNECT target was dialled although the request modifier asked to skip the round trip", desc)
 				}
 				if resp.Status != 200 {
 					k.Fail("C02.skip_200_resmod", nil, "%s: skipped round trip answered with status %d, want 200", desc, resp.Status)
